@@ -40,13 +40,14 @@ def configs(tier):
             cfg["logics"] = lg
         if cfg:
             full.append(cfg)
+    verbose = [{"verbosity": 1}, {"verbosity": 2}, {"verbosity": 2, "debug": True}, {"verbosity": 1, "optimizer": "optimize", "parallel": True}]
     if tier == "thorough":
-        return full
+        return full + verbose + [dict(c, verbosity=2) for c in full[::40]]
     # quick: every single option, every pair of options (one value combination each), a few triples
     single = [c for c in full if len(c) == 1]
     pairs = [c for c in full if len(c) == 2 and c.get("optimize_priority", "lex") == "lex" and c.get("logics", "QF_LIA") in ("QF_LIA", "QF_IDL")]
     triples = [c for c in full if len(c) == 3 and c.get("debug") and c.get("optimize_priority", "weight") == "weight" and c.get("logics", "QF_UFLIA") == "QF_UFLIA"]
-    return single + pairs + triples[:8]
+    return single + pairs + triples[:8] + verbose
 
 
 def cfg_tag(cfg):
@@ -282,7 +283,7 @@ def shapes(tier):
             out.append(equiv_shape(variant, cfg))
     conc = [{}, {"optimizer": "optimize"}, {"parallel": True}, {"random_values": True}, {"debug": True}, {"logics": "QF_LIA"},
             {"logics": "QF_IDL"}, {"logics": "QF_UFLIA"}, {"optimizer": "optimize", "optimize_priority": "lex"},
-            {"optimizer": "optimize", "optimize_priority": "box", "parallel": True}, {"debug": True, "random_values": True, "logics": "QF_LIA"}]
+            {"optimizer": "optimize", "optimize_priority": "box", "parallel": True}, {"debug": True, "random_values": True, "logics": "QF_LIA"}, {"verbosity": 2}]
     for kind in ("feasible", "infeasible", "objective"):
         for cfg in conc:
             out.append(concrete_shape(kind, cfg))
